@@ -8,6 +8,9 @@
 //	    is included and not excluded
 //	C4  loopback traffic between the application and itself is left alone
 //	C5  the IPv4 and IPv6 rule sets give the same verdict on corresponding packets (c20_test.go)
+//	C6  (differential, no policy claim) the verdict of every packet is independent of the order in which
+//	    the CIDRs are listed in the include / exclude lists: the statement's policy is a function of the
+//	    *sets* of ranges (c20_test.go)
 //
 // Readings fixed here, each taken from the public flag / annotation documentation
 // (tools/istio-iptables/pkg/cmd/root.go flag help), not from run.go:
@@ -30,10 +33,15 @@
 //   - open:in-exclude-with-list  inbound port that is in an explicit include *list* and in the exclude
 //     list: the statement says "not redirected", the flag documentation says the exclude list "only
 //     applies when all inbound traffic (i.e. '*') is being redirected" -> both accepted
-//   - open:loopback-explicitly-included  lo traffic to a destination C2 would redirect, when the
-//     operator named a loopback CIDR in the include list (C2 and C4 conflict; the operator asked for it)
-//   - open:app-udp, open:app-marked, open:in-not-new-tcp  packets the statement does not talk about
-//     (UDP, packets carrying a non-zero fwmark, non-NEW conntrack states); they are still subject to C5
+//   - open:loopback-explicitly-included  lo traffic to a NON-loopback destination C2 would redirect (e.g.
+//     the pod's own IP inside an included range), when the operator named a loopback CIDR in the include
+//     list: C2 says redirect, C4 says leave alone. Not open: a destination inside the explicitly
+//     included loopback range itself (other than the loopback address) must be redirected (C2; C4 is
+//     about the loopback address / app-to-itself traffic, and the operator asked for that range).
+//   - open:app-udp, open:app-marked, open:app-passthrough-src, open:in-not-new-tcp  packets the statement
+//     does not talk about (UDP, packets carrying a non-zero fwmark, application-owned packets sourced
+//     from the proxy's passthrough address 127.0.0.6/::6, non-NEW conntrack states); they are still
+//     subject to C5 and C6
 //   - proxy-owned packets are only subject to C1 (and C5)
 package c20
 
@@ -58,6 +66,7 @@ type policy struct {
 	incWild        bool
 	inc, exc       map[int][]netip.Prefix // by family
 	hasLoopInclude bool
+	loopInc        map[int][]netip.Prefix // the explicitly included loopback CIDRs, by family
 	loop           map[int]netip.Prefix
 	inInc, inExc   map[int]bool
 	inWild         bool
@@ -100,7 +109,7 @@ func famOf(a netip.Addr) int {
 func newPolicy(c capCfg) *policy {
 	p := &policy{
 		c: c, uids: intSet(c.UID), gids: intSet(c.GID),
-		inc: map[int][]netip.Prefix{}, exc: map[int][]netip.Prefix{},
+		inc: map[int][]netip.Prefix{}, exc: map[int][]netip.Prefix{}, loopInc: map[int][]netip.Prefix{},
 		loop:   map[int]netip.Prefix{4: netip.MustParsePrefix(c.LoopCidr).Masked(), 6: netip.MustParsePrefix("::1/128")},
 		outInc: intSet(c.OutInc), outExc: intSet(c.OutExc), inExc: intSet(c.InExc),
 		exclIf: map[string]bool{}, ogExc: intSet(c.OGExc),
@@ -113,6 +122,7 @@ func newPolicy(c capCfg) *policy {
 			p.inc[famOf(pf.Addr())] = append(p.inc[famOf(pf.Addr())], pf.Masked())
 			if pf.Addr().IsLoopback() {
 				p.hasLoopInclude = true // the operator named a loopback address explicitly
+				p.loopInc[famOf(pf.Addr())] = append(p.loopInc[famOf(pf.Addr())], pf.Masked())
 			}
 		}
 	}
@@ -207,14 +217,27 @@ func (p *policy) expect(f *flow, fam int, dst netip.Addr) expectation {
 	if f.Mark != 0 {
 		return expectation{clause: "open:app-marked"}
 	}
+	if f.Src == "passthrough" {
+		// 127.0.0.6 / ::6 is the address the proxy binds for inbound passthrough; the rules key on the
+		// source, not the owner. An application-owned socket bound to it is not a case the statement covers.
+		return expectation{clause: "open:app-passthrough-src"}
+	}
 	if p.dnsEffective && f.Dport == 53 {
 		return expectation{clause: "open:dns53"}
 	}
 	capturable := (p.ogWild && !p.ogExc[f.Owner.GID]) || (!p.ogWild && p.ogInc[f.Owner.GID])
 	c2 := capturable && !p.exclIf[f.Iface] && !p.outExc[f.Dport] && !inAny(p.exc[fam], dst) &&
 		(p.incWild || inAny(p.inc[fam], dst) || p.outInc[f.Dport])
-	if f.Kind == "loop" || p.loop[fam].Contains(dst) {
+	if p.loop[fam].Contains(dst) {
+		// the loopback address itself (ISTIO_OUTBOUND_IPV4_LOOPBACK_CIDR / ::1): always left alone
+		return expectation{clause: "C4-loopback", want: "untouched"}
+	}
+	if f.Kind == "loop" {
 		if p.hasLoopInclude && c2 {
+			if inAny(p.loopInc[fam], dst) {
+				// inside a loopback range the operator explicitly included: C2 applies
+				return expectation{clause: "C2-outbound", want: "REDIRECT:" + proxyPort}
+			}
 			return expectation{clause: "open:loopback-explicitly-included"}
 		}
 		return expectation{clause: "C4-loopback", want: "untouched"}
